@@ -1088,9 +1088,14 @@ class Store:
                 self.recursive_end_process(value[subval])
         return
     
-    def _delete_path(self, path):
+    def _delete_path(self, path, end_processes=True):
         """
         Delete the subtree at the given path.
+
+        Args:
+            path: Path to the subtree.
+            end_processes: Whether to end the parallel processes in the
+                subtree. False when the subtree lives on elsewhere.
         """
 
         if not path:
@@ -1102,7 +1107,8 @@ class Store:
         if remove in target.inner:
             lost = target.inner[remove]
             # End any parallel processes to be deleted
-            self.recursive_end_process(target.inner[remove])
+            if end_processes:
+                self.recursive_end_process(target.inner[remove])
             del target.inner[remove]
             return lost
         return None
@@ -1294,7 +1300,8 @@ class Store:
                 process_updates.append((
                     process_path, process.value))
 
-        self._delete_path(source_path)
+        # detach the moved node; its parallel processes keep running
+        self._delete_path(source_path, end_processes=False)
 
         here = self.path_for()
         source_absolute = tuple(here + source_path)
